@@ -5,7 +5,8 @@ package c04
 // uploads (Block1 POST, 16-byte blocks, own tokens) are fed block by block; the processing of a
 // block can be parked in the middle (the block's body is a reader that waits at its first use, i.e.
 // inside the copy into the reassembly buffer, with the per-token guard held) while other steps run:
-// blocks of other uploads, duplicates of earlier blocks, and the housekeeping sweep
+// blocks of other uploads, duplicates of earlier blocks (also ones that queue on the guard of the
+// parked block), and the housekeeping sweep
 // (CheckExpirations) at a time before, around or after the expiry of the reassembly entries. The
 // pool behind the BlockWise is a last-in-first-out free list, so that a message given back while
 // it is still in use is deterministically handed to the next taker.
@@ -40,10 +41,12 @@ type rcvXfer struct {
 }
 
 type rcvStep struct {
-	Kind string `json:"kind"` // block | park | dup | resume | tick
-	T    int    `json:"t,omitempty"`
-	Num  int    `json:"num,omitempty"`
-	Adv  string `json:"adv,omitempty"` // tick: none | half | past (relative to the expiration of the entries)
+	Kind string `json:"kind"` // block | park | dup | qdup | resume | tick
+	// qdup: a duplicate of an earlier block (not block 0) of an upload whose current block is
+	// parked: it finds the reassembly entry, queues on its guard and goes on when the parked block is done
+	T   int    `json:"t,omitempty"`
+	Num int    `json:"num,omitempty"`
+	Adv string `json:"adv,omitempty"` // tick: none | half | past (relative to the expiration of the entries)
 }
 
 type rcvScenario struct {
@@ -134,8 +137,9 @@ func execReceiver(sc rcvScenario) *evid.Failure {
 		done    chan struct{}
 	}
 	parked := map[int]*parkedRec{}
+	queued := map[int][]chan struct{}{}
 	// handle feeds block num of upload t; with gate the processing parks at the first use of the body
-	handle := func(t, num int, gate bool) *evid.Failure {
+	handle := func(t, num int, gate, queue bool) *evid.Failure {
 		body := rcvBody(sc, t)
 		lo := 16 * num
 		hi := min(lo+16, len(body))
@@ -175,6 +179,11 @@ func execReceiver(sc rcvScenario) *evid.Failure {
 			}
 			cl.ReleaseMessage(w.Message())
 		}()
+		if queue {
+			queued[t] = append(queued[t], done)
+			time.Sleep(200 * time.Microsecond) // let it reach the guard
+			return nil
+		}
 		if gate {
 			select {
 			case <-g.parked:
@@ -205,15 +214,25 @@ func execReceiver(sc rcvScenario) *evid.Failure {
 		case <-time.After(10 * time.Second):
 			return evid.Failf("receiver/hang", sc, "the parked block of upload %d did not finish within 10 s of being released", t)
 		}
+		for _, d := range queued[t] {
+			select {
+			case <-d:
+			case <-time.After(10 * time.Second):
+				return evid.Failf("receiver/hang", sc, "a duplicate block of upload %d that was queued behind the parked block did not finish within 10 s of its release", t)
+			}
+		}
+		delete(queued, t)
 		return nil
 	}
 	var fail *evid.Failure
 	for _, st := range sc.Steps {
 		switch st.Kind {
 		case "block", "dup":
-			fail = handle(st.T, st.Num, false)
+			fail = handle(st.T, st.Num, false, false)
+		case "qdup":
+			fail = handle(st.T, st.Num, false, true)
 		case "park":
-			fail = handle(st.T, st.Num, true)
+			fail = handle(st.T, st.Num, true, false)
 		case "resume":
 			fail = resume(st.T)
 		case "tick":
@@ -296,6 +315,12 @@ func genReceiver(t *rapid.T) rcvScenario {
 		for x := 0; x < nx; x++ {
 			if isParked[x] {
 				opts = append(opts, rcvStep{Kind: "resume", T: x})
+				if cursor[x] >= 3 {
+					// not block 0: whether a duplicate of block 0 finds the entry or arrives just after
+					// the body was completed is a matter of microseconds here, and in the latter case it
+					// legitimately starts a new upload under the same token
+					opts = append(opts, rcvStep{Kind: "qdup", T: x, Num: rapid.IntRange(1, cursor[x]-2).Draw(t, "qdupnum")})
+				}
 				continue
 			}
 			if cursor[x] < sc.Transfers[x].Blocks {
@@ -355,6 +380,12 @@ func receiverEngine(t *testing.T, r *evid.Run) evid.Engine {
 				b, _ := json.Marshal(sc)
 				key = string(b)
 				cls = append(cls, "receiver/sweep-while-a-block-is-being-processed")
+			}
+			for _, st := range sc.Steps {
+				if st.Kind == "qdup" {
+					cls = append(cls, "receiver/duplicate-queued-on-the-guard-of-a-block-in-progress")
+					break
+				}
 			}
 			if pastOverlap {
 				cls = append(cls, "receiver/entry-expires-while-a-block-is-being-processed")
